@@ -12,7 +12,6 @@ use derive_more::IsVariant;
 use inner::inner;
 use itertools::{repeat_n, Itertools};
 use std::iter;
-use unchecked_unwrap::UncheckedUnwrap;
 
 pub mod display;
 #[cfg(test)]
@@ -180,7 +179,9 @@ impl Array {
 
     fn index_or_insert(&mut self, val: &Val) -> Result<&mut Val, ValError> {
         match val {
-            Val::Number(n) => Ok(self.index_arr_or_insert(*n as usize)),
+            Val::Number(n) => self
+                .index_arr_or_insert(*n as usize)
+                .ok_or_else(|| ValError::InvalidKey(val.clone())),
             Val::Undefined => Ok(self.index_dict_or_insert(DictKey::Undefined)),
             Val::Null => Ok(self.index_dict_or_insert(DictKey::Null)),
             Val::Boolean(b) => Ok(self.index_dict_or_insert(DictKey::Boolean(*b))),
@@ -188,11 +189,14 @@ impl Array {
             Val::Array(_) => Err(ValError::InvalidKey(val.clone())),
         }
     }
-    fn index_arr_or_insert(&mut self, i: usize) -> &mut Val {
+    fn index_arr_or_insert(&mut self, i: usize) -> Option<&mut Val> {
         if i >= self.arr.len() {
-            self.arr.resize_with(i + 1, Default::default);
+            // an index no array can be extended to is an invalid key, not an overflow or an abort
+            let new_len = i.checked_add(1)?;
+            self.arr.try_reserve(new_len - self.arr.len()).ok()?;
+            self.arr.resize_with(new_len, Default::default);
         }
-        unsafe { self.arr.get_mut(i).unchecked_unwrap() }
+        self.arr.get_mut(i)
     }
     fn index_dict_or_insert(&mut self, k: DictKey) -> &mut Val {
         self.dict.entry(k).or_default()
